@@ -14,7 +14,7 @@ CLAIMS = {
         'correctly iff no positional argument stands behind it, which is exactly when the insertion guard passes; the guard of args / bases slice edits passes iff everything the edit touches lies in '
         'front of the first keyword, where argument index = merged index (both tied by correspondence in the split-fields sweep). One element that needs its own parentheses stays ONE element '
         'through every single-element and one-element-slice entry point (deterministic sweep). '
-        'Handler glue is not proved (cross-check only). Deterministic sweeps: removal of every dispensable clause under every norm option and entry point; arguments._all with / and * markers x every window x new arguments of every category (category-sensitive), keyword-only defaults. Proved as well: the `/` and `*` markers re-derived from the categories of a parameter list make Python read every parameter in its category (models/ArgMarkers.v, tied to the text real put_slice writes). Also: optional single-node fields next to parenthesized neighbours through every entry point; operands glued to the keyword behind them replaced by multi-line code. Also: name indexing (view[\'g\'], at(), assignment, deletion) through every bounded view of body / _body / orelse / finalbody.',
+        'Handler glue is not proved (cross-check only). Deterministic sweeps: removal of every dispensable clause under every norm option and entry point; arguments._all with / and * markers x every window x new arguments of every category (category-sensitive), keyword-only defaults. Proved as well: the `/` and `*` markers re-derived from the categories of a parameter list make Python read every parameter in its category (models/ArgMarkers.v, tied to the text real put_slice writes). Also: optional single-node fields next to parenthesized neighbours through every entry point; operands glued to the keyword behind them replaced by multi-line code. Also: name indexing (view[\'g\'], at(), assignment, deletion) through every bounded view of body / _body / orelse / finalbody. models/ViewName.v: name indexing is relative to the view and names its first definition there.',
    note='Trusted: Coq kernel/vm_compute; py/py2v translator; CPython ast as reference; the view model is hand-written (tied by correspondence); '
         'refusal allow-list py/props/C03_refusals_allow.json. No axioms.',
    design='DESIGN.md section 4 C03'),
@@ -35,7 +35,7 @@ CLAIMS = {
         'replacement all surviving nodes end at mode_map and the new sub-tree lands rigidly (C01_frame_expr_replace). Partial: the element part for separator lists / statement '
         'blocks and handler glue are not modelled - they are decided by the oracle: after every successful op of random edit sequences (all public entry points, three code forms, '
         'random options with norm=True) the source is re-parsed by CPython and compared in types, fields, ctx and all positions. Trace correspondence replays sampled _offset/_put_src '
-        'calls of those edits on the Coq models. par() / unpar() on every expression and pattern node keep the tree equal to the parse of its source (AnnAssign.simple, annotation targets, nodes that cannot take parentheses). Also: slices re-indented line by line with per-line column offsets; try handlers removed one by one through every entry point. Delimiters around a node (models/Delimit.v over the TRANSLATED _put_src / _offset flags of _delimit_node, _parenthesize_grouping, _unparenthesize_grouping): every node beside or below the node keeps its text, also one that starts exactly where it ended (format specification of an f-string field), ancestors grow by the delimiters, unpar undoes par on every node; correspondence with the AST position of every node after par(force=True) / unpar() on every expression and pattern node. Also: a line comment replaced / added / deleted on warm location caches, then the enclosing blocks edited; ImportFrom.level and undenotable primitives (inf, nan, complex with a real part) in the primitive sweep.',
+        'calls of those edits on the Coq models. par() / unpar() on every expression and pattern node keep the tree equal to the parse of its source (AnnAssign.simple, annotation targets, nodes that cannot take parentheses). Also: slices re-indented line by line with per-line column offsets; try handlers removed one by one through every entry point. Delimiters around a node (models/Delimit.v over the TRANSLATED _put_src / _offset flags of _delimit_node, _parenthesize_grouping, _unparenthesize_grouping): every node beside or below the node keeps its text, also one that starts exactly where it ended (format specification of an f-string field), ancestors grow by the delimiters, unpar undoes par on every node; correspondence with the AST position of every node after par(force=True) / unpar() on every expression and pattern node. Also: a line comment replaced / added / deleted on warm location caches, then the enclosing blocks edited; ImportFrom.level and undenotable primitives (inf, nan, complex with a real part) in the primitive sweep. Also: slices put into deletion / assignment targets.',
    note='Trusted: Coq kernel/vm_compute; translators; CPython ast (OH1); hand models tied by (trace) correspondence; known_findings.json lists one open finding class (arglike positional after keyword).',
    design='DESIGN.md section 4 C01'),
  'C12': dict(
@@ -44,7 +44,7 @@ CLAIMS = {
         'a refused enter changes nothing; the next edit of any node is admitted; every _modifying call site in the regenerated site list is a with-item or the guarded manual protocol. '
         'Partial: validate-before-mutate inside handlers is not modelled - decided by fault sequences: 15 kinds of invalid request interleaved with valid edits; after each raising '
         'call source and ast.dump(include_attributes) must be identical and the registry empty; later edits must re-parse to themselves; deterministic sweeps over option values, '
-        'falsy codes, evaluation order and the ROOT as target (consumed / non-root / unparsable code). Also: one element of every list field replaced by code a rule of the container may reject, through every one-element entry point.',
+        'falsy codes, evaluation order and the ROOT as target (consumed / non-root / unparsable code). Also: one element of every list field replaced by code a rule of the container may reject, through every one-element entry point. Also: put_docstr / put_line_comment with arguments they must refuse; a tree put into itself through every entry point.',
    note='Trusted: Coq kernel/vm_compute; py2v/gen_modsites scanner; hand model Registry.v tied to the real class by correspondence; CPython ast.dump as observer. No axioms.',
    design='DESIGN.md section 4 C12'),
  'C20': dict(
@@ -65,7 +65,7 @@ CLAIMS = {
         '(models/Interleave.v: args / bases merged with keywords by position) are both lists each once, in position order, and that order is unique. Partial: the stepping of the six '
         'position-interleaving classes, step_fwd/step_back and child_path are compared by correspondence/oracle only (walk set vs ast.walk, parent-first, sibling text order, '
         'all chains mutually consistent, paths bijective, filtered walks bracketed), the chains and stepping also under every `all` setting (True / False / loc / class / set) on a zoo of '
-        'programs holding every combination of optional child groups (decorators x type parameters x argument kinds x bases x keywords ...). Also: a grid of all-filters (True / False / \'loc\' / leaf types / sets of types) x on x recurse x back x self_ on every node as walk root: the three on-modes agree, a type filter yields exactly the nodes of that type the unfiltered walk reaches, first_child()/next() give the recurse=False walk.',
+        'programs holding every combination of optional child groups (decorators x type parameters x argument kinds x bases x keywords ...). Also: a grid of all-filters (True / False / \'loc\' / leaf types / sets of types) x on x recurse x back x self_ on every node as walk root: the three on-modes agree, a type filter yields exactly the nodes of that type the unfiltered walk reaches, first_child()/next() give the recurse=False walk. models/WalkShallowModes.v: leave / both without recursion with the filter; the walk correspondence draws recurse for every on-mode.',
    note='Trusted: Coq kernel/vm_compute; py2v/gen_traverse (also reads ASDL kinds from CPython ast docstrings); hand model Walk.v tied by correspondence; Module.type_ignores is '
         'excluded from the compatibility check (documented deviation). One genuine defect found and fixed (root filter on leave/both). No axioms.',
    design='DESIGN.md section 4 C14'),
@@ -75,7 +75,7 @@ CLAIMS = {
         'parentheses wherever the hand-written Python-grammar requirement says a bare child would not parse back into the slot (C09_table_adequate), the function is total there, '
         'and associativity is encoded correctly. Partial: no Gallina parser/round-trip proof was built - the grammar spec is instead validated on every run against ast.parse on '
         'its whole finite domain (OH2), and the complete chain is cross-checked through real replaces (every slot x child kind x bare/parenthesised/multi-line/comment layout x '
-        'source/FST/AST form) plus put-back of children that need their parentheses. Line-structure enclosure and atom analysis are covered only by that oracle. Special slots also with non-ASCII text before the operand, a second put of the slot just filled, unenclosed slots with line-breaking replacements, assignment / deletion target slots (non-targets refused, never written). Also: bases of annotation targets behind attribute / subscript chains; brace-leading replacements right behind the brace of an f-string field. Also: implicit string concatenations with a comment that ends in a backslash between the parts; Starred replacements with a line break between the star and the value.',
+        'source/FST/AST form) plus put-back of children that need their parentheses. Line-structure enclosure and atom analysis are covered only by that oracle. Special slots also with non-ASCII text before the operand, a second put of the slot just filled, unenclosed slots with line-breaking replacements, assignment / deletion target slots (non-targets refused, never written). Also: bases of annotation targets behind attribute / subscript chains; brace-leading replacements right behind the brace of an f-string field. Also: implicit string concatenations with a comment that ends in a backslash between the parts; Starred replacements with a line break between the star and the value. Also: unpar() of an operand glued to names on both sides, then a replacement that needs parentheses.',
    note='Trusted: Coq kernel/vm_compute; py2v/gen_prec; hand spec PyGrammar.v (validated vs CPython each run); canonical examples in py/lib/slots.py; CPython ast. No axioms.',
    design='DESIGN.md section 4 C09'),
  'C04': dict(
@@ -113,7 +113,7 @@ CLAIMS = {
         'sound for the regular language of the nested pattern, completeness REFUTED by the witness (?:b.?b)?b on bbb, complete for deterministic repetitions, exact and equal to the flat model on flat '
         'patterns; tied by correspondence to the real matcher (accept/reject + length of every repetition) and to re with atomic groups (?>...). A history stage reuses one pattern object over '
         'sequences of targets (match / search / pure AST) against fresh pattern objects. A field sweep builds, for every field of every node of 40 programs, the pattern of the node\'s own value '
-        '(plain and inside M / MOR / MAND / MNOT(MNOT)), one-element variants that must not match, and back-references to the captured field, on the formatted tree and the pure AST alike. search() in every walk mode event by event with the tags of each match; back-reference families with two quantifiers before the reference; type patterns per field on the formatted tree and the pure AST. Also: repetitions that may be empty under a quantifier with a minimum; back-references between nodes of different classes with the same text; expression contexts and primitive types as search patterns. models/TreeMatch.v: an AST as pattern matches exactly its own tree (a copy that differs in one leaf - None vs 0 / False / '' / b'' / 0.0 - matches in neither direction), a wildcard field whatever stands in its place; correspondence on (node, own AST / one leaf changed) pairs and the primitive-leaf matrix.',
+        '(plain and inside M / MOR / MAND / MNOT(MNOT)), one-element variants that must not match, and back-references to the captured field, on the formatted tree and the pure AST alike. search() in every walk mode event by event with the tags of each match; back-reference families with two quantifiers before the reference; type patterns per field on the formatted tree and the pure AST. Also: repetitions that may be empty under a quantifier with a minimum; back-references between nodes of different classes with the same text; expression contexts and primitive types as search patterns. models/TreeMatch.v: an AST as pattern matches exactly its own tree (a copy that differs in one leaf - None vs 0 / False / '' / b'' / 0.0 - matches in neither direction), a wildcard field whatever stands in its place; correspondence on (node, own AST / one leaf changed) pairs and the primitive-leaf matrix. Also: the kind leaf of string constants (plain vs u-prefixed) through match / search / back-references.',
    note='Trusted: Coq kernel/vm_compute; hand models Match.v and MatchNested.v tied by correspondence; Python re (with atomic groups for nested repetitions) as reference for quantifier sequences (OH3). No axioms.',
    design='DESIGN.md section 4 C17'),
  'C06': dict(
@@ -141,7 +141,7 @@ CLAIMS = {
         'shifted position used for node offsets; per-line dedent strips leading white space only, by the reported amount, and is inverted by indent on any line set. Partial: choice of copy/delete '
         'spans (trivia, separators), _fix_copy and AST cloning are decided on the real implementation: copy/get/get_slice leave source and ast.dump(with positions) untouched, the piece verifies and '
         're-parses to itself and equals the original elements, cut == copy + delete on fresh trees, code tokens conserved up to separators and comments conserved exactly. Two comment-loss defects '
-        'are recorded as known findings. Forced slices include Global / Nonlocal names, non-ASCII removals with kept separators, column-coincidence sweeps and un-normalised identifiers.',
+        'are recorded as known findings. Forced slices include Global / Nonlocal names, non-ASCII removals with kept separators, column-coincidence sweeps and un-normalised identifiers. Also: multi-line f-strings with nested f-strings that start on a later line.',
    note='Trusted: Coq kernel/vm_compute; hand models Extract.v/Text.v tied by trace correspondence; tokenize and the CPython parser as reference. No axioms.',
    design='DESIGN.md section 4 C07'),
  'C05': dict(
@@ -150,7 +150,7 @@ CLAIMS = {
         'the delimiter guard accepts exactly the texts without an over-closing prefix, an accepted balanced fragment leaves the wrapper opener to be closed right after it, a refused one would have '
         'closed it inside. Partial: CPython itself, the per-mode wrapper choice and the non-delimiter guards are decided by the oracle: 24 extended modes + operators + whole programs; fragments from '
         'the corpus, re-laid-out, non-ASCII, and hostile (wrapper-closing text, wrong counts, splices); validity and the expected sub-tree come from embeddings written for the check (construct '
-        'around the hole unchanged, all fragment tokens inside the element). Four wrapper-induced misparses found this way were repaired in /repo. The default mode \'all\' is held to python\'s tree for every source python parses (and to the mode of its result for fragments); the acceptance of a trailing comma may not depend on its layout. The embedding judge also refuses text that continues the wrapper iterable; a naked sequence starts at the fragment\'s first token. Also: with-items that are yield / walrus expressions need parentheses of their own (the embedding judge no longer shares the wrapper\'s blind spot); fragments that close the wrapper\'s header and hide its \': pass\' behind a comment.',
+        'around the hole unchanged, all fragment tokens inside the element). Four wrapper-induced misparses found this way were repaired in /repo. The default mode \'all\' is held to python\'s tree for every source python parses (and to the mode of its result for fragments); the acceptance of a trailing comma may not depend on its layout. The embedding judge also refuses text that continues the wrapper iterable; a naked sequence starts at the fragment\'s first token. Also: with-items that are yield / walrus expressions need parentheses of their own (the embedding judge no longer shares the wrapper\'s blind spot); fragments that close the wrapper\'s header and hide its \': pass\' behind a comment. Also: operators followed by a backslash that is no line continuation.',
    note='Trusted: Coq kernel/vm_compute; hand model Wrap.v tied by correspondence; CPython ast.parse and tokenize as reference; the EMB embedding table of py/props/C05.py as the definition of "full construct". No axioms.',
    design='DESIGN.md section 4 C05'),
  'C10': dict(
@@ -171,7 +171,7 @@ CLAIMS = {
         'reconciling an unchanged tree performs zero puts and returns the mark with all formatting identities; an untouched child still in place under an in-tree parent is returned intact whatever '
         'happens to its siblings. Partial: the puts themselves, slice-copy provenance and comments are decided by the oracle: up to 3 mark/reconcile rounds with 0..5 pure-AST mutations (replace / swap / '
         'duplicate expressions, primitives, operators, statement insert / delete / replace / move / reverse / duplicate, foreign FST nodes, container resize); result must satisfy C01, equal the edited AST, '
-        'leave the source identical when nothing changed and keep text and comments of untouched top-level statements. One defect found (1 -> True not reconciled) was repaired in /repo. The loop of recurse_slice over an edited list (models/SliceReplay.v: maximal runs of consecutive source elements by one slice operation, in-place and pure elements alone, tail deleted) leaves exactly the edited list whatever the output held, and only recurses into an unchanged list (2 theorems, tied to the put_slice calls real reconcile() makes). Deterministic stages: primitive fields, foreign runs and nodes written in a form only their old home allows, Dict re-pairing, try clause counts. Also: nodes taken from another tree whose own lists / fields were edited as well.',
+        'leave the source identical when nothing changed and keep text and comments of untouched top-level statements. One defect found (1 -> True not reconciled) was repaired in /repo. The loop of recurse_slice over an edited list (models/SliceReplay.v: maximal runs of consecutive source elements by one slice operation, in-place and pure elements alone, tail deleted) leaves exactly the edited list whatever the output held, and only recurses into an unchanged list (2 theorems, tied to the put_slice calls real reconcile() makes). Deterministic stages: primitive fields, foreign runs and nodes written in a form only their old home allows, Dict re-pairing, try clause counts. Also: nodes taken from another tree whose own lists / fields were edited as well. Also: keyword.arg edits (name <-> **) with positional / starred arguments on either side.',
    note='Trusted: Coq kernel/vm_compute; hand model Reconcile.v tied by correspondence of put counts on edits that do not move slice elements; ast.unparse/parse round trip as the definition of a valid edited tree; CPython parser. No axioms.',
    design='DESIGN.md section 4 C13'),
  'C15': dict(
